@@ -473,6 +473,12 @@ class Gen:
                 return ("strftime", c, fmt)
         return self.text_expr(scope, d - 1)
 
+    def _nonconst(self, e, scope, ty=INT):
+        """with const_cmp switched off, a predicate operand always mentions a column"""
+        if self.f.get("const_cmp", True) or cols_of(e):
+            return e
+        return self.colref(scope, ty) or e
+
     def cmp_expr(self, scope, d):
         r = self.rng.random()
         op = self.pick(["=", "<>", "<", "<=", ">", ">="])
@@ -483,8 +489,18 @@ class Gen:
                 self.tags.add("time:cmp-iso-literal")
                 return ("bin", op, c, ("lit", self.pick(TS_DOMAIN[1:] + ["2000-01-01 00:00:00"]), TEXT))
         if r < 0.75 or not self.f["text"]:
-            return ("bin", op, self.int_expr(scope, d), self.int_expr(scope, d))
-        return ("bin", op, self.text_expr(scope, d), self.text_expr(scope, d))
+            l, rr = self.int_expr(scope, d), self.int_expr(scope, d)
+            if not self.f.get("const_cmp", True) and not cols_of(l) and not cols_of(rr):
+                l = self.colref(scope, INT) or l
+            if not self.f.get("lit_left_cmp", True) and l[0] == "lit":
+                l, rr = rr, l
+                if l[0] == "lit":
+                    l = self.colref(scope, INT) or l
+            return ("bin", op, l, rr)
+        l, rr = self.text_expr(scope, d), self.text_expr(scope, d)
+        if not self.f.get("const_cmp", True) and not cols_of(l) and not cols_of(rr):
+            l = self.colref(scope, TEXT) or l
+        return ("bin", op, l, rr)
 
     def bool_expr(self, scope, d, subq_ok=False, outer=None):
         r = self.rng.random()
@@ -495,30 +511,31 @@ class Gen:
                 if c is not None:
                     return c
             return self.cmp_expr(scope, max(d - 1, 0))
+        sub_in_or = subq_ok and f.get("subq_under_or", True)
         if r < 0.45:
             self.tags.add("bool:and")
             return ("bin", "AND", self.bool_expr(scope, d - 1, subq_ok), self.bool_expr(scope, d - 1, subq_ok))
         if r < 0.58:
             self.tags.add("bool:or")
-            return ("bin", "OR", self.bool_expr(scope, d - 1, subq_ok), self.bool_expr(scope, d - 1, subq_ok))
+            return ("bin", "OR", self.bool_expr(scope, d - 1, sub_in_or), self.bool_expr(scope, d - 1, sub_in_or))
         if r < 0.66:
             self.tags.add("bool:not")
-            return ("not", self.bool_expr(scope, d - 1, subq_ok))
+            return ("not", self.bool_expr(scope, d - 1, sub_in_or))
         if r < 0.74:
             self.tags.add("pred:is-null")
             e = self.int_expr(scope, d - 1) if self.chance(0.7) or not f["text"] else self.text_expr(scope, d - 1)
-            return ("isnull", e, self.chance(0.5))
+            return ("isnull", self._nonconst(e, scope), self.chance(0.5))
         if r < 0.82:
             self.tags.add("pred:in-list")
             items = [("lit", self.pick([0, 1, 2, 3, 7, None] if self.chance(0.2) else [0, 1, 2, 3, 7]), INT)
                      for _ in range(self.pick([1, 2, 3]))]
-            return ("inlist", self.int_expr(scope, d - 1), items, self.chance(0.3))
+            return ("inlist", self._nonconst(self.int_expr(scope, d - 1), scope), items, self.chance(0.3))
         if r < 0.88:
             self.tags.add("pred:between")
-            return ("between", self.int_expr(scope, d - 1), self.int_expr(scope, 0), self.int_expr(scope, 0), self.chance(0.3))
+            return ("between", self._nonconst(self.int_expr(scope, d - 1), scope), self.int_expr(scope, 0), self.int_expr(scope, 0), self.chance(0.3))
         if r < 0.91 and f["like"] and f["text"]:
             self.tags.add("pred:like-digits")
-            return ("like", self.text_expr(scope, d - 1), ("lit", self.pick(["1%", "%0", "_", "%", "9"]), TEXT), self.chance(0.3))
+            return ("like", self._nonconst(self.text_expr(scope, d - 1), scope, TEXT), ("lit", self.pick(["1%", "%0", "_", "%", "9"]), TEXT), self.chance(0.3))
         if r < 0.97 and subq_ok and f["subq"]:
             return self.subq_pred(scope, d - 1)
         if f["paren"] if "paren" in f else self.chance(f["redundant_parens"]):
@@ -598,10 +615,27 @@ class Gen:
             self.tags.add("cte:ref")
             cols = [((colnames[i] if colnames else n), ty, prov) for i, (n, ty, prov) in enumerate(q.out)]
             return Source("cte", self.new_alias("c"), name=name, cols=cols)
-        return self.base_source(self.pick(self.tables))
+        cands = self.tables
+        if not self.f.get("self_join", True):
+            used = getattr(self, "_scope_tables", set())
+            cands = [t for t in self.tables if t.name not in used]
+            if not cands:
+                return None
+        t = self.pick(cands)
+        if hasattr(self, "_scope_tables"):
+            self._scope_tables.add(t.name)
+        return self.base_source(t)
 
     # -- select ----------------------------------------------------------------------
     def select(self, depth=None, as_source=False, top=False, ctes=None, fixed_out=None):
+        saved = getattr(self, "_scope_tables", None)
+        self._scope_tables = set()
+        try:
+            return self._select(depth, as_source, top, ctes)
+        finally:
+            self._scope_tables = saved if saved is not None else set()
+
+    def _select(self, depth=None, as_source=False, top=False, ctes=None):
         f = self.f
         depth = f["max_depth"] if depth is None else depth
         q = Query()
@@ -637,7 +671,25 @@ class Gen:
                     kinds = [k for k in kinds if k not in ("RIGHT JOIN", "FULL JOIN")]
                 kind = self.pick(kinds)
                 had_semi = had_semi or kind in ("SEMI JOIN", "ANTI JOIN")
-                src = self.source(depth, ctes)
+                if not f.get("outer_derived", True):
+                    # the null-supplying side of an outer join is always a base table
+                    if kind in ("RIGHT JOIN", "FULL JOIN") and any(s2.kind != "table" for s2 in scope):
+                        kind = "LEFT JOIN" if kind == "FULL JOIN" else "JOIN"
+                    if kind in ("LEFT JOIN", "FULL JOIN"):
+                        saved_d, saved_c = f["derived"], ctes
+                        f["derived"], ctes_arg = False, []
+                        try:
+                            src = self.source(depth, ctes_arg)
+                        finally:
+                            f["derived"] = saved_d
+                    else:
+                        src = self.source(depth, ctes)
+                else:
+                    src = self.source(depth, ctes)
+                if src is None:
+                    break
+                if kind == "CROSS JOIN" and src.kind != "table" and not f.get("cross_join_derived", True):
+                    kind = "JOIN"
                 self.tags.add("join:" + kind.split()[0].lower())
                 on = using = None
                 if kind != "CROSS JOIN":
@@ -649,6 +701,8 @@ class Gen:
                     else:
                         l = self.colref(scope, INT)
                         rc = self.colref([src], INT)
+                        if (l is None or rc is None) and src.kind != "table" and not f.get("cross_join_derived", True):
+                            break
                         if l is None or rc is None:
                             kind = "CROSS JOIN"
                         else:
@@ -689,8 +743,9 @@ class Gen:
             self.tags.add("group")
             nkeys = self.pick([0, 1, 1, 2])
             keys = []
-            for _ in range(nkeys):
-                c = self.colref(scope, self.pick([INT, INT, TEXT]))
+            key_scope = scope if f.get("group_derived_expr", True) else [s2 for s2 in scope if s2.kind == "table"]
+            for _ in range(nkeys if key_scope else 0):
+                c = self.colref(key_scope, self.pick([INT, INT, TEXT]))
                 if c is not None and c not in keys:
                     keys.append(c)
             q.group = keys
@@ -707,7 +762,8 @@ class Gen:
                 self.tags.add("group:having")
                 q.having = ("bin", self.pick(["=", ">", "<", ">="]), self.agg_expr(scope), ("lit", self.pick([0, 1, 2]), INT))
         else:
-            use_star = f["stars"] and self.chance(0.12) and not getattr(q, "using_merged", False)
+            use_star = (f["stars"] and self.chance(0.12) and not getattr(q, "using_merged", False)
+                        and (f["stars"] != "single-source" or len(scope) == 1))
             if use_star:
                 self.tags.add("star")
                 if self.chance(0.5) or len(scope) == 1:
@@ -868,10 +924,14 @@ class Gen:
             return
         if not (self.chance(0.6) or as_source):
             return
+        if q.distinct and not f.get("distinct_order", True):
+            return
         # ORDER BY the output columns (by alias), all of them => total order on the result
         names = [n for n, _, _ in q.out]
         if len(set(names)) != len(names) or any(p[0][0] == "star" for p in q.projs):
             if as_source:
+                return
+            if len(set(names)) != len(names) and not f.get("star_dup_order", True):
                 return
             # order by ordinals
             keys = [str(i + 1) for i in range(len(names))]
@@ -892,7 +952,8 @@ class Gen:
         q.order = order
         q.order_total = True
         self.tags.add("order")
-        if f["limit"] and self.chance(0.5) and (q.qualify is None or f.get("qualify_limit")):
+        force_limit = as_source and not f.get("derived_order_nolimit", True)
+        if f["limit"] and (self.chance(0.5) or force_limit) and (q.qualify is None or f.get("qualify_limit")):
             q.limit = self.pick([0, 1, 2, 3, 5])
             self.tags.add("limit")
             if f["offset"] and self.chance(0.4):
